@@ -16,6 +16,14 @@ class DecompressError(Exception):
     """
 
 
+class InvalidFramingError(Exception):
+    """Raised when the length information of a http message is missing or invalid.
+    """
+
+
+READ_BLOCK_SIZE = 65536
+
+
 def mk_chunks(body, chunk_size=512):
     """
     convert plain body bytes to chunked bytes
@@ -35,6 +43,7 @@ def mk_chunks(body, chunk_size=512):
 
 
 CR_LF = b'\r\n'
+MAX_CHUNK_HEADER_SIZE = 1024  # chunk size plus optional chunk extensions
 
 
 class HTTPReader:
@@ -54,23 +63,21 @@ class HTTPReader:
         """
         body = []
         while True:
-            chunk_header = cls._read_until(stream, CR_LF)
+            chunk_header = cls._read_until(stream, CR_LF, max_bytes=MAX_CHUNK_HEADER_SIZE)
+            if chunk_header is None:
+                raise DechunkError(
+                    'Could not extract chunk size: unexpected end of data or chunk header too long.')
             chunk_headers = chunk_header.split(b';')  # length + optional chunk-extensions (name=value pairs)
             chunk_len, _ = chunk_headers[0], chunk_headers[1:]  # we do nothing with chunk-extensions...
-            if chunk_len is None:
-                raise DechunkError(
-                    'Could not extract chunk size: unexpected end of data.')
 
             try:
                 chunk_len = int(chunk_len.strip(), 16)
             except (ValueError, TypeError) as err:
                 raise DechunkError('Could not parse chunk size:') from err
+            if chunk_len < 0:
+                raise DechunkError(f'Invalid chunk size {chunk_len}')
 
-            bytes_to_read = chunk_len
-            while bytes_to_read:
-                chunk = stream.read(bytes_to_read)
-                bytes_to_read -= len(chunk)
-                body.append(chunk)
+            body.append(cls._read_exactly(stream, chunk_len, DechunkError))
 
             # chunk ends with \r\n
             cr_lf = stream.read(2)
@@ -79,6 +86,21 @@ class HTTPReader:
             if chunk_len == 0:  # len == 0 indicates end of data
                 break
         return b''.join(body)
+
+    @staticmethod
+    def _read_exactly(stream, size, error_cls):
+        """Read size bytes in blocks (does not allocate size bytes before they have arrived).
+        :raise: error_cls if the stream ends before size bytes were read.
+        """
+        parts = []
+        bytes_to_read = size
+        while bytes_to_read > 0:
+            part = stream.read(min(bytes_to_read, READ_BLOCK_SIZE))
+            if not part:
+                raise error_cls(f'unexpected end of data, {bytes_to_read} of {size} bytes missing')
+            bytes_to_read -= len(part)
+            parts.append(part)
+        return b''.join(parts)
 
     @staticmethod
     def _read_until(stream, delimiter, max_bytes=16):
@@ -116,11 +138,10 @@ class HTTPReader:
         else:
             cl_string = http_message.headers.get('content-length')
             if cl_string:
-                try:
-                    content_length = int(cl_string)
-                    http_body = http_message.rfile.read(content_length)
-                except TypeError:
-                    http_body = http_message.rfile.read()
+                cl_string = cl_string.strip()
+                if not (cl_string.isascii() and cl_string.isdigit()):
+                    raise InvalidFramingError(f'invalid content-length "{cl_string}"')
+                http_body = cls._read_exactly(http_message.rfile, int(cl_string), InvalidFramingError)
 
         # if we get compressed content then we check against server setting
         # if it matches continue and decompress
@@ -128,10 +149,14 @@ class HTTPReader:
         actual_enc = http_message.headers.get('content-encoding')
         if actual_enc:
             supported_encs = supported_encodings or CompressionHandler.available_encodings
-            if actual_enc in supported_encs:
-                http_body = CompressionHandler.decompress_payload(actual_enc, http_body)
-            else:
+            if actual_enc not in supported_encs:
                 raise DecompressError(f'content-encoding "{actual_enc}" is not supported', )
+            if http_body is None:
+                raise InvalidFramingError(f'content-encoding "{actual_enc}" without content')
+            try:
+                http_body = CompressionHandler.decompress_payload(actual_enc, http_body)
+            except Exception as ex:
+                raise DecompressError(f'could not decompress "{actual_enc}" content: {ex}') from ex
         return http_body
 
     @classmethod
